@@ -263,6 +263,7 @@ func execC04(x *X) {
 			}
 			rd.Zero = int(op.J)
 			rd.EOFWithData = op.ID%2 == 0
+			rd.ZeroFirst = op.J > 0 && op.ID%3 == 0
 			out, err := cli.Build(context.Background(), &cli.BuildOptions{ParseOptions: &cli.ParseOptions{Input: rd}})
 			if err != nil {
 				// Build also validates; an invalid but calculable document is not this property's concern
